@@ -27,7 +27,13 @@ fn prepare() {
         return;
     }
     match build_worker() {
-        Ok(()) => set_worker_available(true),
+        Ok(caps) => {
+            set_worker_available(true);
+            set_worker_can_run(caps.contains("run"));
+            if caps != "run,perr" {
+                eprintln!("note: in-process back-end built with reduced capabilities [{caps}]: the repository's main.rs no longer matches the harness's copy of its diagnostic formatting; runs go through the CLI");
+            }
+        },
         Err(e) => {
             eprintln!("note: in-process back-end unavailable, falling back to the CLI only:\n{e}");
             set_worker_available(false);
